@@ -237,4 +237,419 @@ theorem stepResidual_phys (M : Static) (F G : ResFn) (s s' : Sim) (dt : Rat)
     mkEnv_x_getD _ _ _ _ _ _ hk
   rw [e1, e2, e3]
 
+/-! ### the `index <= n_states` guard -/
+
+/-- `get_var` with the strict guard `index < n_states` (the reading one would expect) -/
+def getVarStrict (M : Static) (s : Sim) (i : Nat) (neg : Bool) : Rat :=
+  let v := s.sv.getD i 0
+  let v := if neg then v * (-1) else v
+  if i < M.L.nX then v * nomAt M.nom i else v
+
+def setVarStrict (M : Static) (s : Sim) (i : Nat) (neg : Bool) (value : Rat) : Sim :=
+  let v := if neg then value * (-1) else value
+  let v := if i < M.L.nX then v / nomAt M.nom i else v
+  { s with sv := s.sv.set i v }
+
+def scaleSubstStrict (L : Layout) (tab : NomTable) (X : Vec) : Vec :=
+  (List.range X.length).map fun i =>
+    match tab.lookup i with
+    | some ν => if i < L.nX then X.getD i 0 * ν else X.getD i 0
+    | none => X.getD i 0
+
+theorem envOf_x (M : Static) (s : Sim) (k : Nat) (hk : k < M.L.nS) (hlen : s.sv.length = M.L.len) :
+    (envOf M s).x.getD k 0 = getVar M s k false := by
+  have hnl := M.L.nX_lt_len
+  have hkx : k < M.L.nX := by simp only [Layout.nX]; omega
+  rw [envOf, mkEnv_x_getD _ _ _ _ _ _ hk,
+    scaleSubst_getD _ _ _ _ (by rw [List.length_take, hlen]; omega) (by omega)]
+  simp only [getVar, if_pos (show k ≤ M.L.nX by omega)]
+  simp [List.getD_eq_getElem?_getD, hkx]
+
+theorem envOf_d (M : Static) (s : Sim) (k : Nat) (hk : k < M.L.nS) (hlen : s.sv.length = M.L.len) :
+    (envOf M s).d.getD k 0 = getVar M s (M.L.iD k) false := by
+  have hnl := M.L.nX_lt_len
+  have hkx : M.L.iD k < M.L.nX := by simp only [Layout.nX, Layout.iD]; omega
+  rw [envOf, mkEnv_d_getD _ _ _ _ _ _ hk,
+    scaleSubst_getD _ _ _ _ (by rw [List.length_take, hlen]; omega) (by omega)]
+  simp only [getVar, if_pos (show M.L.iD k ≤ M.L.nX by omega)]
+  simp [List.getD_eq_getElem?_getD, hkx]
+
+theorem envOf_a (M : Static) (s : Sim) (j : Nat) (hj : j < M.L.nA) (hlen : s.sv.length = M.L.len) :
+    (envOf M s).a.getD j 0 = getVar M s (M.L.nS + j) false := by
+  have hnl := M.L.nX_lt_len
+  have hkx : M.L.nS + j < M.L.nX := by simp only [Layout.nX]; omega
+  have h1 : (envOf M s).a.getD j 0
+      = (scaleSubst M.L M.nom (s.sv.take M.L.nX)).getD (M.L.nS + j) 0 := by
+    show (slice _ M.L.nS M.L.nA).getD j 0 = _
+    rw [slice_getD _ _ _ _ hj]
+  rw [h1, scaleSubst_getD _ _ _ _ (by rw [List.length_take, hlen]; omega) (by omega)]
+  simp only [getVar, if_pos (show M.L.nS + j ≤ M.L.nX by omega)]
+  simp [List.getD_eq_getElem?_getD, hkx]
+
+theorem envOf_u (M : Static) (s : Sim) (k : Nat) (hk : k < M.L.nU) :
+    (envOf M s).u.getD k 0 = getVar M s (M.L.iU k) false := by
+  have h1 : (envOf M s).u.getD k 0 = (slice s.sv (M.L.nX + 1) M.L.nU).getD k 0 := rfl
+  rw [h1, slice_getD _ _ _ _ hk]
+  have hiu : M.L.iU k = M.L.nX + 1 + k := rfl
+  rw [hiu]
+  unfold getVar
+  simp only []
+  rw [if_neg (show ¬ (M.L.nX + 1 + k ≤ M.L.nX) by omega)]
+  simp
+
+/-! ### the IO loop -/
+
+/-- imported series are written to constant inputs only (the generator / a well-formed data
+    set; see the finding on series named like a state) -/
+def SeriesWF (io : IOStatic) : Prop := ∀ ser ∈ io.series, io.M.L.nX < ser.idx
+
+theorem setVar_input (M : Static) (s : Sim) (i : Nat) (neg : Bool) (v : Rat) (hi : M.L.nX < i) :
+    (setVar M s i neg v).sv.take (M.L.nX + 1) = s.sv.take (M.L.nX + 1)
+    ∧ (setVar M s i neg v).sv.length = s.sv.length ∧ (setVar M s i neg v).dt = s.dt := by
+  unfold setVar
+  refine ⟨?_, by simp, rfl⟩
+  simp only []
+  rw [List.take_set_of_le (by omega)]
+
+theorem feed_aux (M : Static) (tIdx : Nat) (l : List Series) (hl : ∀ ser ∈ l, M.L.nX < ser.idx)
+    (s s1 : Sim)
+    (h : l.foldlM (fun s ser =>
+      match ser.vals[tIdx]? with
+      | none => none
+      | some none => some s
+      | some (some v) => some (setVar M s ser.idx ser.neg v)) s = some s1) :
+    s1.sv.take (M.L.nX + 1) = s.sv.take (M.L.nX + 1) ∧ s1.sv.length = s.sv.length ∧ s1.dt = s.dt := by
+  induction l generalizing s with
+  | nil =>
+    simp only [List.foldlM_nil] at h
+    cases h
+    exact ⟨rfl, rfl, rfl⟩
+  | cons ser rest ih =>
+    rw [List.foldlM_cons] at h
+    have hser := hl ser (by simp)
+    have hrest : ∀ q ∈ rest, M.L.nX < q.idx := fun q hq => hl q (by simp [hq])
+    cases hv : ser.vals[tIdx]? with
+    | none => simp [hv] at h
+    | some ov =>
+      cases ov with
+      | none =>
+        simp only [hv, Option.bind_eq_bind, Option.bind_some] at h
+        exact ih hrest s h
+      | some v =>
+        simp only [hv, Option.bind_eq_bind, Option.bind_some] at h
+        obtain ⟨a, b, c⟩ := ih hrest _ h
+        obtain ⟨a', b', c'⟩ := setVar_input M s ser.idx ser.neg v hser
+        exact ⟨a.trans a', b.trans b', c.trans c'⟩
+
+theorem feed_spec (io : IOStatic) (hs : SeriesWF io) (tIdx : Nat) (s s1 : Sim)
+    (h : feed io tIdx s = some s1) :
+    s1.sv.take (io.M.L.nX + 1) = s.sv.take (io.M.L.nX + 1) ∧ s1.sv.length = s.sv.length
+    ∧ s1.dt = s.dt :=
+  feed_aux io.M tIdx io.series hs s s1 h
+
+/-- one `IOMixin.update` relates two object states: inputs for the new time are fed, then the
+    model's `update` returns -/
+def StepRel (io : IOStatic) (F G : ResFn) (root : Root) (dtImport : Rat) (s s' : Sim)
+    (dtArg : Rat) : Prop :=
+  ∃ s1, feed io (bisectLeft io.timesSec
+      (getTime io.M s + (if dtArg < 0 then dtImport else dtArg))) s = some s1
+    ∧ update io.M F G root s1 (if dtArg < 0 then dtImport else dtArg) = .returned s'
+
+theorem ioUpdate_returned (io : IOStatic) (F G : ResFn) (root : Root) (dtImport : Rat)
+    (st st' : IOSim) (dtArg : Rat) (h : ioUpdate io F G root dtImport st dtArg = .returned st') :
+    StepRel io F G root dtImport st.sim st'.sim dtArg
+    ∧ st'.times = st.times ++ [getTime io.M st.sim + (if dtArg < 0 then dtImport else dtArg)]
+    ∧ st'.out = List.zipWith (fun l v => l ++ [v]) st.out (record io st'.sim) := by
+  unfold ioUpdate at h
+  simp only [] at h
+  split at h
+  · cases h
+  · rename_i s1 hf
+    split at h
+    · cases h
+    · rename_i s2 hu
+      injection h with h
+      subst h
+      exact ⟨⟨s1, hf, hu⟩, rfl, rfl⟩
+
+/-- `tr` is the sequence of object states of a run from `s` along the `dt` arguments -/
+def IsTrace (io : IOStatic) (F G : ResFn) (root : Root) (dtImport : Rat) :
+    Sim → List Rat → List Sim → Prop
+  | s, [], tr => tr = [s]
+  | s, dt :: rest, tr =>
+    ∃ s' tr', tr = s :: tr' ∧ StepRel io F G root dtImport s s' dt
+      ∧ IsTrace io F G root dtImport s' rest tr'
+
+/-- append one recorded row per visited state to the per-variable output lists -/
+def appendRows (out : List (List Rat)) (rows : List (List Rat)) : List (List Rat) :=
+  rows.foldl (fun o r => List.zipWith (fun l v => l ++ [v]) o r) out
+
+theorem ioRun_trace (io : IOStatic) (F G : ResFn) (root : Root) (dtImport : Rat)
+    (dts : List Rat) (st st' : IOSim) (h : ioRun io F G root dtImport st dts = .returned st') :
+    ∃ tr, IsTrace io F G root dtImport st.sim dts tr
+      ∧ tr.length = dts.length + 1
+      ∧ tr.getLast? = some st'.sim
+      ∧ st'.out = appendRows st.out (tr.tail.map (record io))
+      ∧ st'.times = st.times ++ (List.zipWith (fun (s : Sim) dtArg =>
+            getTime io.M s + (if dtArg < 0 then dtImport else dtArg)) tr dts) := by
+  induction dts generalizing st with
+  | nil =>
+    simp only [ioRun] at h
+    injection h with h
+    subst h
+    exact ⟨[st.sim], rfl, rfl, rfl, rfl, by simp⟩
+  | cons dt rest ih =>
+    simp only [ioRun] at h
+    split at h
+    · cases h
+    · rename_i st1 hu
+      obtain ⟨hrel, ht, ho⟩ := ioUpdate_returned io F G root dtImport st st1 dt hu
+      obtain ⟨tr', htr, hlen, hlast, hout, htimes⟩ := ih st1 h
+      refine ⟨st.sim :: tr', ⟨st1.sim, tr', rfl, hrel, htr⟩, by simp [hlen], ?_, ?_, ?_⟩
+      · cases tr' with
+        | nil => simp at hlen
+        | cons a b => simpa using hlast
+      · cases tr' with
+        | nil => simp at hlen
+        | cons a b =>
+          have ha : a = st1.sim := by
+            cases rest with
+            | nil => simp only [IsTrace] at htr; injection htr with h1 _
+            | cons d r =>
+              obtain ⟨_, _, h1, _, _⟩ := htr
+              injection h1 with h1 _
+          subst ha
+          simp only [List.tail_cons, List.map_cons, appendRows, List.foldl_cons] at hout ⊢
+          rw [hout, ho]
+      · rw [htimes, ht]
+        simp
+
+theorem appendRows_spec (rows : List (List Rat)) (m : Nat) (hrows : ∀ r ∈ rows, r.length = m)
+    (out : List (List Rat)) (hout : out.length = m) :
+    (appendRows out rows).length = m
+    ∧ ∀ o, o < m → (appendRows out rows).getD o [] = out.getD o [] ++ rows.map (fun r => r.getD o 0) := by
+  induction rows generalizing out with
+  | nil => exact ⟨hout, fun o _ => by simp [appendRows]⟩
+  | cons r rest ih =>
+    have hr : r.length = m := hrows r (by simp)
+    have hlen : (List.zipWith (fun l v => l ++ [v]) out r).length = m := by simp [hout, hr]
+    obtain ⟨h1, h2⟩ := ih (fun q hq => hrows q (by simp [hq])) _ hlen
+    refine ⟨by simpa [appendRows] using h1, ?_⟩
+    intro o ho
+    have := h2 o ho
+    simp only [appendRows, List.foldl_cons] at this ⊢
+    rw [this]
+    have hz : (List.zipWith (fun l v => l ++ [v]) out r).getD o [] = out.getD o [] ++ [r.getD o 0] := by
+      rw [List.getD_eq_getElem?_getD, List.getElem?_zipWith]
+      have ho1 : o < out.length := by omega
+      have ho2 : o < r.length := by omega
+      simp [List.getElem?_eq_getElem ho1, List.getElem?_eq_getElem ho2]
+    rw [hz]
+    simp
+
+theorem record_length (io : IOStatic) (s : Sim) : (record io s).length = io.outs.length := by
+  simp [record]
+
+theorem record_getD (io : IOStatic) (s : Sim) (o : Nat) (ho : o < io.outs.length) :
+    (record io s).getD o 0 = getVar io.M s (io.outs.getD o (0, false)).1 (io.outs.getD o (0, false)).2 := by
+  simp [record, List.getD_eq_getElem?_getD, List.getElem?_map, List.getElem?_eq_getElem ho]
+
+/-- under one IO update the clock advances by `dt`, the length is kept -/
+theorem StepRel_time (io : IOStatic) (F G : ResFn) (root : Root) (hroot : RootSound root)
+    (dtImport : Rat) (hwf : NomWF io.M) (hs : SeriesWF io) (s s' : Sim) (dtArg : Rat)
+    (hlen : s.sv.length = io.M.L.len) (hpos : 0 < (if dtArg < 0 then dtImport else dtArg))
+    (h : StepRel io F G root dtImport s s' dtArg) :
+    getTime io.M s' = getTime io.M s + (if dtArg < 0 then dtImport else dtArg)
+    ∧ s'.sv.length = io.M.L.len := by
+  obtain ⟨s1, hf, hu⟩ := h
+  obtain ⟨htk, hl1, _⟩ := feed_spec io hs _ s s1 hf
+  have hlen1 : s1.sv.length = io.M.L.len := hl1.trans hlen
+  obtain ⟨_, hl', _, ht, _⟩ := update_returned io.M F G root hroot hwf s1 s' _ hlen1 hu
+  simp only [if_pos hpos] at ht
+  have hnl := io.M.L.nX_lt_len
+  have ht1 : s1.sv.getD io.M.L.nX 0 = s.sv.getD io.M.L.nX 0 := by
+    have e1 : s1.sv.getD io.M.L.nX 0 = (s1.sv.take (io.M.L.nX + 1)).getD io.M.L.nX 0 := by
+      simp [List.getD_eq_getElem?_getD, List.getElem?_take]
+    have e2 : s.sv.getD io.M.L.nX 0 = (s.sv.take (io.M.L.nX + 1)).getD io.M.L.nX 0 := by
+      simp [List.getD_eq_getElem?_getD, List.getElem?_take]
+    rw [e1, e2, htk]
+  refine ⟨?_, hl'⟩
+  rw [getTime_raw _ _ hwf, getTime_raw _ _ hwf]
+  show s'.sv.getD io.M.L.nX 0 = s.sv.getD io.M.L.nX 0 + _
+  rw [ht, ht1]
+
+theorem trace_times (io : IOStatic) (F G : ResFn) (root : Root) (hroot : RootSound root)
+    (dtImport : Rat) (hwf : NomWF io.M) (hs : SeriesWF io) (dts : List Rat)
+    (hpos : ∀ d ∈ dts, 0 < (if d < 0 then dtImport else d))
+    (s : Sim) (tr : List Sim) (hlen : s.sv.length = io.M.L.len)
+    (h : IsTrace io F G root dtImport s dts tr) :
+    List.zipWith (fun (q : Sim) dtArg => getTime io.M q + (if dtArg < 0 then dtImport else dtArg)) tr dts
+      = tr.tail.map (getTime io.M)
+    ∧ (∀ q ∈ tr, q.sv.length = io.M.L.len) ∧ tr.head? = some s := by
+  induction dts generalizing s tr with
+  | nil =>
+    simp only [IsTrace] at h
+    subst h
+    exact ⟨by simp, by simpa using hlen, rfl⟩
+  | cons d rest ih =>
+    obtain ⟨s', tr', rfl, hrel, htr⟩ := h
+    obtain ⟨ht, hl'⟩ := StepRel_time io F G root hroot dtImport hwf hs s s' d hlen
+      (hpos d (by simp)) hrel
+    obtain ⟨h1, h2, h3⟩ := ih (fun q hq => hpos q (by simp [hq])) s' tr' hl' htr
+    refine ⟨?_, ?_, rfl⟩
+    · cases tr' with
+      | nil => simp at h3
+      | cons a b =>
+        have ha : a = s' := by simpa using h3
+        subst ha
+        simp only [List.zipWith_cons_cons, List.tail_cons, List.map_cons] at h1 ⊢
+        rw [h1, ht]
+    · intro q hq
+      rcases List.mem_cons.1 hq with rfl | hq
+      · exact hlen
+      · exact h2 q hq
+
+theorem trace_times_const (io : IOStatic) (F G : ResFn) (root : Root) (hroot : RootSound root)
+    (dtImport : Rat) (hwf : NomWF io.M) (hs : SeriesWF io) (δ : Rat) (hδ : 0 < δ) (dts : List Rat)
+    (hconst : ∀ d ∈ dts, (if d < 0 then dtImport else d) = δ)
+    (s : Sim) (tr : List Sim) (hlen : s.sv.length = io.M.L.len)
+    (h : IsTrace io F G root dtImport s dts tr) :
+    tr.map (getTime io.M) = (List.range (dts.length + 1)).map (fun (j : Nat) => getTime io.M s + (j : Rat) * δ) := by
+  induction dts generalizing s tr with
+  | nil =>
+    simp only [IsTrace] at h
+    subst h
+    simp
+  | cons d rest ih =>
+    obtain ⟨s', tr', rfl, hrel, htr⟩ := h
+    have hd := hconst d (by simp)
+    obtain ⟨ht, hl'⟩ := StepRel_time io F G root hroot dtImport hwf hs s s' d hlen
+      (by rw [hd]; exact hδ) hrel
+    have := ih (fun q hq => hconst q (by simp [hq])) s' tr' hl' htr
+    rw [List.map_cons, this, List.length_cons]
+    conv_rhs => rw [List.range_succ_eq_map, List.map_cons, List.map_map]
+    congr 1
+    · simp
+    · apply List.map_congr_left
+      intro j _
+      simp only [Function.comp]
+      rw [ht, hd]
+      push_cast
+      ring
+
+theorem getVar_congr (M : Static) (s s' : Sim) (i : Nat) (neg : Bool)
+    (h : s'.sv.getD i 0 = s.sv.getD i 0) : getVar M s' i neg = getVar M s i neg := by
+  unfold getVar; rw [h]
+
+theorem setVar_getD_ne (M : Static) (s : Sim) (i j : Nat) (neg : Bool) (v : Rat) (h : i ≠ j) :
+    (setVar M s i neg v).sv.getD j 0 = s.sv.getD j 0 := by
+  unfold setVar
+  simp only [List.getD_eq_getElem?_getD]
+  rw [List.getElem?_set_ne h]
+
+theorem getVar_setVar_input (M : Static) (s : Sim) (i : Nat) (neg : Bool) (v : Rat)
+    (hi : M.L.nX < i) (hl : i < s.sv.length) : getVar M (setVar M s i neg v) i neg = v := by
+  unfold getVar setVar
+  simp only [List.getD_eq_getElem?_getD, List.getElem?_set_self hl, Option.getD_some]
+  have hn : ¬ i ≤ M.L.nX := by omega
+  cases neg <;> simp [hn]
+
+/-- what `__set_input_variables` leaves in the state vector: a finite series value is what
+    `get_var` of the target returns afterwards, a non-finite one keeps the previous value, every
+    other entry is untouched -/
+theorem feed_values_aux (M : Static) (tIdx : Nat) (l : List Series)
+    (hd : l.Pairwise (fun a b => a.idx ≠ b.idx)) (hl : ∀ ser ∈ l, M.L.nX < ser.idx)
+    (s s1 : Sim) (hlen : ∀ ser ∈ l, ser.idx < s.sv.length)
+    (h : l.foldlM (fun s ser =>
+      match ser.vals[tIdx]? with
+      | none => none
+      | some none => some s
+      | some (some v) => some (setVar M s ser.idx ser.neg v)) s = some s1) :
+    (∀ ser ∈ l, (∀ v, ser.vals[tIdx]? = some (some v) → getVar M s1 ser.idx ser.neg = v)
+        ∧ (ser.vals[tIdx]? = some none → getVar M s1 ser.idx ser.neg = getVar M s ser.idx ser.neg))
+    ∧ ∀ i, (∀ ser ∈ l, ser.idx ≠ i) → s1.sv.getD i 0 = s.sv.getD i 0 := by
+  induction l generalizing s with
+  | nil =>
+    simp only [List.foldlM_nil] at h
+    cases h
+    exact ⟨fun _ h => (by cases h), fun _ _ => rfl⟩
+  | cons ser rest ih =>
+    rw [List.foldlM_cons] at h
+    obtain ⟨hd1, hd2⟩ := List.pairwise_cons.1 hd
+    have hrest : ∀ q ∈ rest, M.L.nX < q.idx := fun q hq => hl q (by simp [hq])
+    cases hv : ser.vals[tIdx]? with
+    | none => simp [hv] at h
+    | some ov =>
+      cases ov with
+      | none =>
+        simp only [hv, Option.bind_eq_bind, Option.bind_some] at h
+        obtain ⟨h1, h2⟩ := ih hd2 hrest s (fun q hq => hlen q (by simp [hq])) h
+        refine ⟨?_, fun i hi => h2 i (fun q hq => hi q (by simp [hq]))⟩
+        intro q hq
+        rcases List.mem_cons.1 hq with rfl | hq
+        · refine ⟨fun v hv' => (by rw [hv] at hv'; cases hv'), fun _ => ?_⟩
+          exact getVar_congr M s s1 _ _ (h2 _ (fun r hr => (hd1 r hr).symm))
+        · exact h1 q hq
+      | some v =>
+        simp only [hv, Option.bind_eq_bind, Option.bind_some] at h
+        have hlen' : ∀ q ∈ rest, q.idx < (setVar M s ser.idx ser.neg v).sv.length := by
+          intro q hq
+          have := hlen q (by simp [hq])
+          simpa [setVar] using this
+        obtain ⟨h1, h2⟩ := ih hd2 hrest _ hlen' h
+        refine ⟨?_, ?_⟩
+        · intro q hq
+          rcases List.mem_cons.1 hq with rfl | hq
+          · refine ⟨fun v' hv' => ?_, fun hn => (by rw [hv] at hn; cases hn)⟩
+            have : v' = v := by rw [hv] at hv'; injection hv' with hv'; injection hv' with hv'; exact hv'.symm
+            subst this
+            rw [getVar_congr M _ s1 _ _ (h2 _ (fun r hr => (hd1 r hr).symm))]
+            exact getVar_setVar_input M s _ _ _ (hl _ (by simp)) (hlen _ (by simp))
+          · obtain ⟨a, b⟩ := h1 q hq
+            refine ⟨a, fun hn => ?_⟩
+            rw [b hn]
+            exact getVar_congr M _ _ _ _ (setVar_getD_ne M s _ _ _ _ (hd1 q hq))
+        · intro i hi
+          rw [h2 i (fun q hq => hi q (by simp [hq]))]
+          exact setVar_getD_ne M s _ _ _ _ (hi ser (by simp))
+
+/-- the step residual with the constants spelled out as `X_prev ++ [time] ++ inputs` -/
+theorem stepResidual_consts (M : Static) (F G : ResFn) (X Xprev : Vec) (dt t : Rat) (u : Vec)
+    (hXp : Xprev.length = M.L.nX) :
+    stepResidual M F G X dt (Xprev ++ t :: u)
+      = F (mkEnv M.L (scaleSubst M.L M.nom X) t u M.p)
+        ++ (List.range M.L.nS).map (fun k =>
+              (mkEnv M.L (scaleSubst M.L M.nom X) t u M.p).d.getD k 0
+                - ((mkEnv M.L (scaleSubst M.L M.nom X) t u M.p).x.getD k 0
+                    - (mkEnv M.L (scaleSubst M.L M.nom Xprev) t u M.p).x.getD k 0) / dt)
+        ++ G (mkEnv M.L (scaleSubst M.L M.nom X) t u M.p) := by
+  have h1 : (Xprev ++ t :: u).take M.L.nX = Xprev := by rw [← hXp]; exact List.take_left
+  have h2 : (Xprev ++ t :: u).getD M.L.iT 0 = t := by
+    have hiT : M.L.iT = M.L.nX := rfl
+    rw [hiT, List.getD_eq_getElem?_getD, List.getElem?_append_right (by omega), hXp, Nat.sub_self]
+    rfl
+  have h3 : (Xprev ++ t :: u).drop (M.L.nX + 1) = u := by
+    rw [← hXp, ← List.drop_drop, List.drop_left]
+    rfl
+  unfold stepResidual
+  simp only [h1, h2, h3]
+  congr 2
+  apply List.map_congr_left
+  intro k hk
+  have hk : k < M.L.nS := List.mem_range.1 hk
+  rw [mkEnv_d_getD _ _ _ _ _ _ hk, mkEnv_x_getD _ _ _ _ _ _ hk, mkEnv_x_getD _ _ _ _ _ _ hk]
+
+theorem zipWith_theta_one (r0 r1 : Vec) (h : r0.length = r1.length) :
+    List.zipWith (fun a b => (1 - (1 : Rat)) * a + 1 * b) r0 r1 = r1 := by
+  induction r0 generalizing r1 with
+  | nil => cases r1 with
+    | nil => rfl
+    | cons _ _ => simp at h
+  | cons a r0 ih =>
+    cases r1 with
+    | nil => simp at h
+    | cons b r1 =>
+      simp only [List.zipWith_cons_cons, List.cons.injEq]
+      refine ⟨by ring, ih r1 (by simpa using h)⟩
+
 end RtcVerif.C09
